@@ -16,10 +16,14 @@ def only(ob):
 
 def main(tier):
     ck = propcheck.Check('C19', tier)
-    N, heavy = (7, 6) if tier == 'quick' else (12, 9)
+    N, heavy = (7, 5) if tier == 'quick' else (12, 6)
     ck.assumptions += ['clean-up passes: text of printer shape (PG+), fixed length per job; every index, slice and nil obligation and every loop unwinding bound is a solver query',
                        'crashes or non-termination inside rassemble-go, regexp/syntax and yaml are not encoded']
-    jobs = c02.lemma_jobs(N, exclude, only, heavyN=heavy)
-    rs, viol = ck.run('clean-up passes', jobs, bounds={'text_len': '0..%d (flag-group pass 0..%d)' % (N, heavy)})
+    deep = 4 if tier == 'quick' else 7
+    jobs = c02.lemma_jobs(N, exclude, only, heavyN=heavy, deep=deep)
+    rs, viol = ck.run('clean-up passes', jobs, bounds={'text_len': '0..%d over all printable ASCII (flag-group pass 0..%d), %d..%d over the representative alphabet' % (N, heavy, N + 1, N + deep)})
+    ck.triage(viol)
+    sj, sb = c02.shaped_jobs(tier, exclude, only)
+    rs, viol = ck.run('flag-groups-shaped', sj, bounds=sb, job_timeout=420 if tier == 'quick' else 1500)
     ck.triage(viol)
     return ck.finish()
